@@ -527,8 +527,21 @@ func c15Line(init []byte, ops []c15Op) string {
 func checkC15(c *lib.Ctx) {
 	r := c.R
 	r.Rule = "concurrent histories of single-packet ReadAt/WriteAt within the extent and Stat (size) by 2..8 goroutines over one Client on 1..4 handles of one fixed-size file, each handle opened O_RDONLY, O_WRONLY or O_RDWR (operations go to handles that serve them); both servers, allocator on/off, request server with and without OpenFileWriter; 8 pairs (server max-tx-packet, client max packet) from the defaults to the 256 KiB frame limit, equal and unequal; every 5th history uses operations of exactly the configured single-packet size, just below it and just above the default size, on a file of 2..3 such packets; every read has a unique (offset,length), every write unique data, so each client operation is matched to the store step that served it — direct oracle: the instrumented store sees exactly one ReadAt/WriteAt/Stat step per completed operation (an operation served piecewise is not atomic), no step without an operation; the stamped history is decided by the PROVED checker checkStamped (Lean, C15.checker_sound) — exact trace validation, no search; non-trivial = history with at least two overlapping operations one of which is a write"
+	r.Rule += ". HAMMER family: 16…32 goroutines over one Client, each owning one region of the file (256 bytes quick; 64…32768 thorough; 1…4 O_RDWR handles), do thousands of (WriteAt fresh pattern, ReadAt it back) pairs — back to back at each goroutine's own pace, or in volleys (all goroutines wait for each other and start a pair together; thorough also: before every 8th pair) — against both servers (allocator on/off) over a mutex-protected atomic store, 1.5 s per run and 4 runs quick (two side by side), 5 s per run and 12 runs thorough, each in a process of its own; direct oracle per operation: WriteAt returns (len, nil), ReadAt returns (len, nil) and exactly the bytes this goroutine wrote last (nobody else writes to its region), no call hangs, the connection stays up; the first 6 pairs of every goroutine are stamped and validated by the proved checker as one history"
 	var cfgs []c15Cfg
 	if c.Replay != "" {
+		var probe struct {
+			Hammer bool `json:"hammer"`
+		}
+		if err := lib.ReadReplay(c.Replay, &probe); err == nil && probe.Hammer {
+			var h c15HammerCfg
+			if err := lib.ReadReplay(c.Replay, &h); err != nil {
+				r.Fail(lib.Failure{Kind: "tie", Key: "replay", What: err.Error()})
+				return
+			}
+			c15Hammers(c, []c15HammerCfg{h})
+			return
+		}
 		var one c15Cfg
 		if err := lib.ReadReplay(c.Replay, &one); err != nil {
 			r.Fail(lib.Failure{Kind: "tie", Key: "replay", What: err.Error()})
@@ -536,6 +549,7 @@ func checkC15(c *lib.Ctx) {
 		}
 		cfgs = []c15Cfg{one}
 	} else {
+		c15Hammers(c, c15HammerCfgs(c))
 		n := 400
 		if c.Tier == "thorough" {
 			n = 6000
